@@ -36,6 +36,8 @@ type SimDB struct {
 	// crash plan: after the CrashAtCommit-th successful commit the instance dies.
 	CrashAtCommit int
 	Closed        bool
+	DiskCommit    bool // the addressed commit fails through a storage write error of goleveldb instead of at this layer
+	DiskFaults    int
 	FirstSite     string // wallet functions on the stack of the first failed call
 	// OnCommit is called after every successful commit (invariant monitors).
 	OnCommit func(n int)
@@ -61,6 +63,9 @@ func (d *SimDB) fault(kind string) bool {
 		d.CallLog = append(d.CallLog, kind)
 	}
 	if d.FailAt > 0 && (d.Calls == d.FailAt || (d.Sticky && d.Calls > d.FailAt)) {
+		if d.DiskCommit && kind != "commit" {
+			return false // disk mode: only commits fail, and they fail below the wallet-db layer
+		}
 		d.Fired++
 		d.FiredKinds[kind]++
 		if d.FirstSite == "" {
@@ -255,6 +260,31 @@ func (t *simTx) Commit() error {
 	}
 	if t.d.fault("commit") {
 		t.finished = true
+		if t.d.DiskCommit && t.d.Inst != nil {
+			// the commit fails where it fails in production: the storage write
+			// of goleveldb's journal returns an error (half of the time after
+			// a short write), and the real commit path of ldb deals with it
+			disk := t.d.Inst.Disk
+			disk.mu.Lock()
+			disk.FailWriteAt, disk.FailErr, disk.ShortWrite = disk.Writes+1, ErrInjectedDB, t.d.Calls%2 == 0
+			disk.mu.Unlock()
+			err := t.w.Commit()
+			disk.mu.Lock()
+			disk.FailWriteAt, disk.ShortWrite = 0, false // the medium works again
+			disk.mu.Unlock()
+			if err == nil {
+				// nothing reached the disk (an empty batch): the commit stands
+				t.d.mu.Lock()
+				t.d.Commits++
+				t.d.mu.Unlock()
+			} else {
+				t.d.mu.Lock()
+				t.d.DiskFaults++
+				t.d.mu.Unlock()
+			}
+			t.d.S.dbLockRelease(t.g)
+			return err
+		}
 		_ = t.w.Rollback()
 		t.d.S.dbLockRelease(t.g)
 		return ErrInjectedDB
